@@ -17,3 +17,6 @@ pub mod c12;
 pub mod c22;
 pub mod c20;
 pub mod c03;
+pub mod c27;
+pub mod c23;
+pub mod c24;
